@@ -56,6 +56,15 @@ def rtPnm4 (img : Img Bool) : Outcome Bool :=
   | none => .ub
   | some file => .done file (decodePnmMono file Settings.full)
 
+/-- the same round trip for a tree in which the writer (`wFixed`) and / or the reader (`rFixed`) carry the proposed fix
+    (proposed_fixes/C12-pnm-gray1.diff); checks/C12.py selects the variant from the source text of the tree under test -/
+def rtPnm4Variant (wFixed rFixed : Bool) (img : Img Bool) : Outcome Bool :=
+  let dec := if rFixed then decodePnmMonoFixed else decodePnmMono
+  if wFixed then let file := encodePnmMonoFixedExec img; .done file (dec file Settings.full)
+  else match encodePnmMono img with
+    | none => .ub
+    | some file => .done file (dec file Settings.full)
+
 /-! ### GIL's marshalling around the external codecs that is not the identity
 
   tiff writer::write_data / write_tiled_data pass the view through `premultiply_view` when the colour space has an
